@@ -301,7 +301,12 @@ class BzrBranch(Branch, _RelockDebugMixin):
                 self._check_history_violation(revision_id)
             self._run_pre_change_branch_tip_hooks(revno, revision_id)
             self._write_last_revision_info(revno, revision_id)
+            # The master branch does not depend on the tip: keep the (possibly
+            # locked) object, or a later get_master_branch() under the same lock
+            # opens a second object whose lock_write contends with the first.
+            master_branch = self._master_branch_cache
             self._clear_cached_state()
+            self._master_branch_cache = master_branch
             self._last_revision_info_cache = revno, revision_id
             self._run_post_change_branch_tip_hooks(old_revno, old_revid)
 
